@@ -15,7 +15,7 @@ use crate::board::zkey::ZKey;
 use crate::board::Board;
 use crate::verif_hooks::{self as vh, Label, Sim, Site};
 
-pub const NT: usize = 16;
+pub const NT: usize = 200;
 pub const NL: usize = 11;
 const NONE: usize = usize::MAX;
 pub const EOF_SPIN_LIMIT: u64 = 300;
@@ -378,6 +378,8 @@ pub enum EndReason {
     ExitOverdue,
     /// the input thread sat in a join while other threads did more than EXIT_ALLOW_TICKS of work
     InputBlocked,
+    /// more simulated threads in one run than the kernel has room for (a harness limit, never a verdict)
+    ThreadLimit,
 }
 
 #[derive(Clone, Debug)]
@@ -1393,7 +1395,11 @@ impl Sim for Kernel {
         let mut g = self.lock();
         let st = g.as_mut().expect("spawn outside a run");
         let tid = st.threads.len();
-        assert!(tid < NT, "too many simulated threads");
+        if tid >= NT {
+            self.end_run(st, EndReason::ThreadLimit);
+            drop(g);
+            std::panic::resume_unwind(Box::new(AbortRun));
+        }
         st.threads.push(TState {
             status: Status::Runnable,
             rec: new_trec(),
